@@ -226,6 +226,3 @@ func (d *driver) minimiseC12(sc *sim.Scenario, try func(*sim.Scenario) *sim.Viol
 	return cur
 }
 
-func (d *driver) instrument() (string, string, error) {
-	return "", "", fmt.Errorf("ast instrumentation not built yet")
-}
